@@ -136,7 +136,9 @@ Theorem C16_csv_uri_example :
 Proof. exact (conj witness_uri_roundtrip fixed_brlan_roundtrip). Qed.
 Print Assumptions C16_csv_uri_example.
 
-Theorem C16_csv_fixpoint_refuted : get_servers_csv nf [srv_alias] = Err ARES_EBADNAME.
+Theorem C16_csv_fixpoint_refuted :
+  set_servers_csv nf (Some vif) 0 5353 0 [] (B "fe80::2%eth0:1") = Ok [srv_alias] /\
+  get_servers_csv nf [srv_alias] = Err ARES_EBADNAME.
 Proof. exact witness_csv_unrenderable. Qed.
 Print Assumptions C16_csv_fixpoint_refuted.
 
